@@ -92,7 +92,11 @@ def aliases_of(path, dlinks, flinks):
     for b in list(out):
         d = os.path.dirname(b)
         out.append("./" + b)
-        if d:
+        if d in dlinks:
+            # `..` after a link to a directory is the parent of the link's target (the operating system
+            # resolves the link first), so the way back goes through the target's own name
+            out.append(d + "/../" + os.path.basename(dlinks[d]) + "/" + os.path.basename(b))
+        elif d:
             out.append(d + "/../" + os.path.basename(d) + "/" + os.path.basename(b))
     return out
 
